@@ -277,4 +277,179 @@ theorem record_prefix (tPrev tNext dupTol : ℚ) (l : List (Nat × Probe ℚ)) :
 
 theorem record_nil (tPrev tNext dupTol : ℚ) (b : Book ℚ) : record tPrev tNext dupTol b [] = b := rfl
 
+/-! ## the events of a forward run are listed in the order they are met -/
+
+/-- recorded times non-decreasing along the list -/
+def SortedT : List (Nat × ℚ) → Prop
+  | [] => True
+  | [_] => True
+  | a :: c :: r => a.2 ≤ c.2 ∧ SortedT (c :: r)
+
+theorem sortedT_snoc (i : Nat) (x : ℚ) : ∀ (l : List (Nat × ℚ)), SortedT l → (∀ e ∈ l, e.2 ≤ x) → SortedT (l ++ [(i, x)])
+  | [], _, _ => trivial
+  | [a], _, h => ⟨h a (List.mem_singleton.mpr rfl), trivial⟩
+  | a :: c :: r, hs, h => ⟨hs.1, sortedT_snoc i x (c :: r) hs.2 (fun e he => h e (List.mem_cons_of_mem _ he))⟩
+
+theorem sortedBy_head_le (x : Nat × Probe ℚ) : ∀ (l : List (Nat × Probe ℚ)), DVP.Events.SortedBy 1 (x :: l) → ∀ y ∈ l, x.2.root ≤ y.2.root
+  | [], _, y, hy => by cases hy
+  | z :: r, hs, y, hy => by
+    have h1 : x.2.root ≤ z.2.root := by simpa using hs.1
+    rcases List.mem_cons.mp hy with rfl | hy'
+    · exact h1
+    · exact le_trans h1 (sortedBy_head_le z r hs.2 y hy')
+
+/-- one step of a forward run: if everything recorded so far is not later than `lb`, and the reported events
+(sorted, forward) that lie in the window are not earlier than `lb`, the list stays sorted and everything
+recorded is not later than the end of the window -/
+theorem foldl_sorted (tPrev tNext dupTol : ℚ) (hw : tPrev ≤ tNext) : ∀ (l : List (Nat × Probe ℚ)) (b : Book ℚ) (lb : ℚ),
+    DVP.Events.SortedBy 1 l → SortedT b.events → (∀ e ∈ b.events, e.2 ≤ lb) → lb ≤ tNext →
+    (∀ x ∈ l, inside tPrev tNext x.2.root = true → lb ≤ x.2.root) →
+    SortedT (l.foldl (recStep tPrev tNext dupTol) b).events ∧ ∀ e ∈ (l.foldl (recStep tPrev tNext dupTol) b).events, e.2 ≤ tNext := by
+  intro l
+  induction l with
+  | nil => intro b lb _ hs hle hlb _; exact ⟨hs, fun e he => le_trans (hle e he) hlb⟩
+  | cons x xs ih =>
+    intro b lb hsort hs hle hlb hge
+    simp only [List.foldl_cons]
+    have htail : DVP.Events.SortedBy 1 xs := DVP.Events.SortedBy.tail hsort
+    by_cases hin : inside tPrev tNext x.2.root = true
+    · -- the root is in the window: it is not earlier than anything recorded, and not later than tNext
+      have hx_ge : lb ≤ x.2.root := hge x List.mem_cons_self hin
+      have hx_le : x.2.root ≤ tNext := by
+        unfold inside at hin; rw [if_pos hw] at hin; simp at hin; exact hin.2
+      have key : ∀ b' : Book ℚ, b'.events = b.events ∨ b'.events = b.events ++ [(x.1, x.2.root)] →
+          SortedT b'.events ∧ ∀ e ∈ b'.events, e.2 ≤ x.2.root := by
+        intro b' hb'
+        rcases hb' with h | h
+        · rw [h]; exact ⟨hs, fun e he => le_trans (hle e he) hx_ge⟩
+        · rw [h]
+          refine ⟨sortedT_snoc _ _ _ hs (fun e he => le_trans (hle e he) hx_ge), fun e he => ?_⟩
+          rcases List.mem_append.mp he with he | he
+          · exact le_trans (hle e he) hx_ge
+          · rw [List.mem_singleton.mp he]
+      have hcase : (recStep tPrev tNext dupTol b x).events = b.events ∨
+          (recStep tPrev tNext dupTol b x).events = b.events ++ [(x.1, x.2.root)] := by
+        unfold recStep
+        split
+        · left; rfl
+        · split
+          · right; rfl
+          · split
+            · right; rfl
+            · left; rfl
+      obtain ⟨k1, k2⟩ := key _ hcase
+      exact ih _ x.2.root htail k1 k2 hx_le (fun y hy _ => sortedBy_head_le x xs hsort y hy)
+    · have hskip : recStep tPrev tNext dupTol b x = b := by
+        unfold recStep; simp [hin]
+      rw [hskip]
+      exact ih b lb htail hs hle hlb (fun y hy hy' => hge y (List.mem_cons_of_mem _ hy) hy')
+
+/-- consecutive forward windows: every step starts where (or after) the previous one ended -/
+def Windows : ℚ → List (ℚ × ℚ × List (Nat × Probe ℚ)) → Prop
+  | _, [] => True
+  | L, st :: r => L ≤ st.1 ∧ st.1 ≤ st.2.1 ∧ Windows st.2.1 r
+
+theorem bookAfter_sorted (dupTol : ℚ) : ∀ (steps : List (ℚ × ℚ × List (Nat × Probe ℚ))) (b : Book ℚ) (L : ℚ),
+    Windows L steps → (∀ st ∈ steps, DVP.Events.SortedBy 1 st.2.2) → SortedT b.events → (∀ e ∈ b.events, e.2 ≤ L) →
+    SortedT (bookAfter dupTol b steps).events := by
+  intro steps
+  induction steps with
+  | nil => intro b L _ _ hs _; exact hs
+  | cons st rest ih =>
+    intro b L hw hsorted hs hle
+    obtain ⟨w1, w2, w3⟩ := hw
+    have h := foldl_sorted st.1 st.2.1 dupTol w2 st.2.2 b st.1 (hsorted st List.mem_cons_self) hs
+      (fun e he => le_trans (hle e he) w1) w2
+      (fun x _ hin => by unfold inside at hin; rw [if_pos w2] at hin; simp at hin; exact hin.1)
+    have e : bookAfter dupTol b (st :: rest) = bookAfter dupTol (record st.1 st.2.1 dupTol b st.2.2) rest := rfl
+    rw [e]
+    refine ih _ st.2.1 w3 (fun s hs' => hsorted s (List.mem_cons_of_mem _ hs')) ?_ ?_
+    · rw [record_eq_foldl]; exact h.1
+    · rw [record_eq_foldl]; exact h.2
+
+/-! ## … and of a backward run: non-increasing times -/
+
+def SortedTB : List (Nat × ℚ) → Prop
+  | [] => True
+  | [_] => True
+  | a :: c :: r => c.2 ≤ a.2 ∧ SortedTB (c :: r)
+
+theorem sortedTB_snoc (i : Nat) (x : ℚ) : ∀ (l : List (Nat × ℚ)), SortedTB l → (∀ e ∈ l, x ≤ e.2) → SortedTB (l ++ [(i, x)])
+  | [], _, _ => trivial
+  | [a], _, h => ⟨h a (List.mem_singleton.mpr rfl), trivial⟩
+  | a :: c :: r, hs, h => ⟨hs.1, sortedTB_snoc i x (c :: r) hs.2 (fun e he => h e (List.mem_cons_of_mem _ he))⟩
+
+theorem sortedBy_neg_head_ge (x : Nat × Probe ℚ) : ∀ (l : List (Nat × Probe ℚ)), DVP.Events.SortedBy (-1) (x :: l) → ∀ y ∈ l, y.2.root ≤ x.2.root
+  | [], _, y, hy => by cases hy
+  | z :: r, hs, y, hy => by
+    have h1 : z.2.root ≤ x.2.root := by have := hs.1; linarith
+    rcases List.mem_cons.mp hy with rfl | hy'
+    · exact h1
+    · exact le_trans (sortedBy_neg_head_ge z r hs.2 y hy') h1
+
+theorem foldl_sorted_bwd (tPrev tNext dupTol : ℚ) (hw : tNext < tPrev) : ∀ (l : List (Nat × Probe ℚ)) (b : Book ℚ) (ub : ℚ),
+    DVP.Events.SortedBy (-1) l → SortedTB b.events → (∀ e ∈ b.events, ub ≤ e.2) → tNext ≤ ub →
+    (∀ x ∈ l, inside tPrev tNext x.2.root = true → x.2.root ≤ ub) →
+    SortedTB (l.foldl (recStep tPrev tNext dupTol) b).events ∧ ∀ e ∈ (l.foldl (recStep tPrev tNext dupTol) b).events, tNext ≤ e.2 := by
+  intro l
+  induction l with
+  | nil => intro b ub _ hs hle hub _; exact ⟨hs, fun e he => le_trans hub (hle e he)⟩
+  | cons x xs ih =>
+    intro b ub hsort hs hle hub hge
+    simp only [List.foldl_cons]
+    have htail : DVP.Events.SortedBy (-1) xs := DVP.Events.SortedBy.tail hsort
+    by_cases hin : inside tPrev tNext x.2.root = true
+    · have hx_le : x.2.root ≤ ub := hge x List.mem_cons_self hin
+      have hx_ge : tNext ≤ x.2.root := by
+        unfold inside at hin; rw [if_neg (not_le.mpr hw)] at hin; simp at hin; exact hin.1
+      have key : ∀ b' : Book ℚ, b'.events = b.events ∨ b'.events = b.events ++ [(x.1, x.2.root)] →
+          SortedTB b'.events ∧ ∀ e ∈ b'.events, x.2.root ≤ e.2 := by
+        intro b' hb'
+        rcases hb' with h | h
+        · rw [h]; exact ⟨hs, fun e he => le_trans hx_le (hle e he)⟩
+        · rw [h]
+          refine ⟨sortedTB_snoc _ _ _ hs (fun e he => le_trans hx_le (hle e he)), fun e he => ?_⟩
+          rcases List.mem_append.mp he with he | he
+          · exact le_trans hx_le (hle e he)
+          · rw [List.mem_singleton.mp he]
+      have hcase : (recStep tPrev tNext dupTol b x).events = b.events ∨
+          (recStep tPrev tNext dupTol b x).events = b.events ++ [(x.1, x.2.root)] := by
+        unfold recStep
+        split
+        · left; rfl
+        · split
+          · right; rfl
+          · split
+            · right; rfl
+            · left; rfl
+      obtain ⟨k1, k2⟩ := key _ hcase
+      exact ih _ x.2.root htail k1 k2 hx_ge (fun y hy _ => sortedBy_neg_head_ge x xs hsort y hy)
+    · have hskip : recStep tPrev tNext dupTol b x = b := by
+        unfold recStep; simp [hin]
+      rw [hskip]
+      exact ih b ub htail hs hle hub (fun y hy hy' => hge y (List.mem_cons_of_mem _ hy) hy')
+
+/-- consecutive backward windows -/
+def WindowsB : ℚ → List (ℚ × ℚ × List (Nat × Probe ℚ)) → Prop
+  | _, [] => True
+  | U, st :: r => st.1 ≤ U ∧ st.2.1 < st.1 ∧ WindowsB st.2.1 r
+
+theorem bookAfter_sorted_bwd (dupTol : ℚ) : ∀ (steps : List (ℚ × ℚ × List (Nat × Probe ℚ))) (b : Book ℚ) (U : ℚ),
+    WindowsB U steps → (∀ st ∈ steps, DVP.Events.SortedBy (-1) st.2.2) → SortedTB b.events → (∀ e ∈ b.events, U ≤ e.2) →
+    SortedTB (bookAfter dupTol b steps).events := by
+  intro steps
+  induction steps with
+  | nil => intro b U _ _ hs _; exact hs
+  | cons st rest ih =>
+    intro b U hw hsorted hs hle
+    obtain ⟨w1, w2, w3⟩ := hw
+    have h := foldl_sorted_bwd st.1 st.2.1 dupTol w2 st.2.2 b st.1 (hsorted st List.mem_cons_self) hs
+      (fun e he => le_trans w1 (hle e he)) (le_of_lt w2)
+      (fun x _ hin => by unfold inside at hin; rw [if_neg (not_le.mpr w2)] at hin; simp at hin; exact hin.2)
+    have e : bookAfter dupTol b (st :: rest) = bookAfter dupTol (record st.1 st.2.1 dupTol b st.2.2) rest := rfl
+    rw [e]
+    refine ih _ st.2.1 w3 (fun s hs' => hsorted s (List.mem_cons_of_mem _ hs')) ?_ ?_
+    · rw [record_eq_foldl]; exact h.1
+    · rw [record_eq_foldl]; exact h.2
+
 end DVP.Record
